@@ -224,6 +224,12 @@ def corpus_specs() -> list[Spec]:
     for gtext, kind in REP_TEMPLATES:
         if kind in ("nested", "rows"):
             out.append(Spec(gtext, [], [], {"kind": kind}, "corpus:rep-" + kind))
+    # float comparisons whose two sides are a sub-ulp apart while the comparison is FALSE (0.1 + 0.2 <= 0.3,
+    # 0.7 / 10 >= 0.07): a distance-aware score would round to 1.0 (seeded change C02-3); judged by plain Python
+    out.append(Spec('<start> ::= <a> ";" <b>\n<a> ::= "0.1" | "0.2" | "0.25" | "0.15"\n<b> ::= "0.2" | "0.1" | "0.05" | "0.15"\n'
+                    'where float(str(<a>)) + float(str(<b>)) <= 0.3\n', [], [], {"kind": "float_sum"}, "corpus:float-tie"))
+    out.append(Spec('<start> ::= <a>\n<a> ::= "0.7" | "0.8" | "0.6" | "0.07"\n'
+                    'where float(str(<a>)) / 10 >= 0.07\n', [], [], {"kind": "float_div"}, "corpus:float-tie"))
     return out
 
 
@@ -250,6 +256,11 @@ def rep_oracle(kind: str, out: str) -> bool:
             return len(out) - 2 == int(out[0])
         if kind == "range":
             return int(out[0]) <= len(out) - 2 <= int(out[1])
+        if kind == "float_sum":
+            a, b = out.split(";")
+            return float(a) + float(b) <= 0.3
+        if kind == "float_div":
+            return float(out) / 10 >= 0.07
         if kind == "nested":
             def plist(i: int) -> int:
                 n = int(out[i])
